@@ -108,7 +108,9 @@ def _load_offsets(cache_path, current_hash):
             ) = pickle.load(file)
             if current_hash is None or current_hash == serialized_hash:
                 return
-    except (FileNotFoundError, ValueError, TypeError):
+    except Exception:
+        # a missing, empty, truncated or otherwise unreadable cache (e.g. left
+        # behind by an interrupted first import) is a cache miss: rebuild it
         pass
 
     _search_regex_parts = []
@@ -116,12 +118,20 @@ def _load_offsets(cache_path, current_hash):
     _search_regex = re.compile("|".join(_search_regex_parts))
     _search_regex_ignorecase = re.compile("|".join(_search_regex_parts), re.IGNORECASE)
 
-    with open(cache_path, mode="wb") as file:
-        pickle.dump(
-            (current_hash, _tz_offsets, _search_regex, _search_regex_ignorecase),
-            file,
-            protocol=5,
-        )
+    # write to a temporary file and rename it into place, so that an
+    # interrupted or concurrent import never leaves a partial cache behind
+    tmp_path = "{}.{}.tmp".format(cache_path, os.getpid())
+    try:
+        with open(tmp_path, mode="wb") as file:
+            pickle.dump(
+                (current_hash, _tz_offsets, _search_regex, _search_regex_ignorecase),
+                file,
+                protocol=5,
+            )
+        os.replace(tmp_path, cache_path)
+    finally:
+        if os.path.exists(tmp_path):
+            os.remove(tmp_path)
 
 
 CACHE_PATH = Path(__file__).parent.joinpath("data", "dateparser_tz_cache.pkl")
